@@ -132,6 +132,13 @@ func concHook(gate bool, point string, args ...any) {
 			}
 		}
 	}
+	if (point == "C_waitchild" || point == "P_waitscope") && len(args) > 1 {
+		// the Close in progress is about to wait for this scope's disposal to complete: from here on it
+		// answers for what fails there
+		if sc, ok := args[1].(godi.Scope); ok && !R.quiet {
+			emit(M{"ev": "waits", "th": procName(), "scope": scopeNameQuiet(sc)})
+		}
+	}
 	if point == "W_wait" {
 		// a watcher goroutine introduces itself; it then blocks on its context, which is not a gate
 		if len(args) > 0 {
@@ -176,7 +183,8 @@ func scopeNameQuiet(s godi.Scope) string {
 	return "?"
 }
 
-var concKeys = map[string][2]string{"S": {"S0", "-"}, "A": {"S1", "-"}, "B": {"S2", "-"}, "T": {"S0", "k"}}
+var concKeys = map[string][2]string{"S": {"S0", "-"}, "A": {"S1", "-"}, "B": {"S2", "-"}, "T": {"S0", "k"},
+	"I": {"I0", "-"}, "J": {"I1", "-"}, "M": {"S1", "-"}, "N": {"S2", "-"}}
 
 func concEmit(th string, m M) {
 	m["th"] = th
